@@ -23,6 +23,10 @@ def norm_cond(t):
             t = t[2]
             continue
         break
+    # Choice -> bool conversions around a predicate call: bool::from(x.is_some()), x.is_some().into()
+    while t[0] == "call" and t[1].rsplit("::", 1)[-1] in ("from", "into", "unwrap_u8", "to_bool") and len(t[2]) == 1 and \
+            isinstance(t[2][0], tuple) and t[2][0] and t[2][0][0] == "call" and t[2][0][1].rsplit("::", 1)[-1] in PRED_CALLS:
+        t = t[2][0]
     if t[0] == "bin" and t[1] in CMP_BIN:
         rel, swap, p = CMP_BIN[t[1]]
         a, b = (t[3], t[2]) if swap else (t[2], t[3])
